@@ -19,9 +19,11 @@ from ..framework import main
 
 
 class RecSigner(object):
-    def __init__(self, idx, log, keep_bytearray=False):
+    def __init__(self, idx, log, keep_bytearray=False, same_pub=False):
         self.idx, self.log = idx, log
         self.pub = bytearray(b'PUB|%d' % idx) if keep_bytearray else None      # a signer that hands out the bytearray it keeps
+        if same_pub:
+            self.pub = b'PUB|1'                  # different private keys that report the same public-key text (loaded without their .pub, or a copied one)
 
     def Sign(self, data):
         self.log.append(('sign', self.idx, bytes(data)))
@@ -38,7 +40,7 @@ def run_script(mode, sc, sess=None, seed=0, stray_frames=None, keys=None):
     """sc: dict(nkeys, need_auth, accept_at, pub_accept, bad_at, strays, md, cb, token_len) -> (trace, outcome, session)"""
     if sess is None:
         dev = simdev.SimDevice(seed=seed)
-        sess = env.Session(mode, dev, log_io=True, banner=b'verif-host')
+        sess = env.Session(mode, dev, log_io=True, banner=b'verif-host', default_transport_timeout_s=sc.get('default_tt'))
     dev = sess.dev
     first = len(dev.rec.events)
     stray_list = [wire.frame('OKAY', 5, 6), wire.frame('WRTE', 7, 8, b'stray'), wire.frame('CLSE', 9, 9)]
@@ -55,7 +57,7 @@ def run_script(mode, sc, sess=None, seed=0, stray_frames=None, keys=None):
                                  tokens=[bytes(rng.randrange(256) for _ in range(tl)) for _ in range(8)])
     log = []
     if keys is None:
-        keys = [RecSigner(i + 1, log, keep_bytearray=bool(sc.get('keep_pub'))) for i in range(sc['nkeys'])]
+        keys = [RecSigner(i + 1, log, keep_bytearray=bool(sc.get('keep_pub')), same_pub=bool(sc.get('same_pub'))) for i in range(sc['nkeys'])]
     at = sc.get('auth_timeout', 7.0)
     cbs = []
 
@@ -232,8 +234,17 @@ def body(ctx):
             sess.close_loop()
     # the same signer objects used for several connects (a signer may hand out the very bytearray it keeps), unusual auth timeouts
     for mode in ('sync', 'async'):
-        for at in (None, 0, 0.5, 7.0):
-            sc = dict(nkeys=2, need_auth=True, accept_at=0, pub_accept=True, bad_at=0, strays=[], md=4096, cb=True, keep_pub=True, auth_timeout=at)
+        # keys whose public-key texts are equal are still different keys: each is tried once, in order
+        for nk in (2, 3, 4):
+            for acc in range(0, nk + 1):
+                sc = dict(nkeys=nk, need_auth=True, accept_at=acc, pub_accept=True, bad_at=0, strays=[], md=4096, cb=True, same_pub=True)
+                tr, o, sess = run_script(mode, sc, seed=ctx.seed + 300 + nk * 10 + acc)
+                sess.close_loop()
+                traces.append(tr)
+                meta.append((mode, [sc]))
+    for mode in ('sync', 'async'):
+        for at, dtt in ((None, None), (0, None), (0.5, None), (7.0, None), (None, 4.0), (7.0, 4.0), (0.5, 30.0)):
+            sc = dict(nkeys=2, need_auth=True, accept_at=0, pub_accept=True, bad_at=0, strays=[], md=4096, cb=True, keep_pub=True, auth_timeout=at, default_tt=dtt)
             tr, o, sess = run_script(mode, sc, seed=ctx.seed + 77)
             keys = sess.last_keys
             for rep in range(2):
